@@ -272,6 +272,28 @@ fn show_cv(v: &incan::frontend::typechecker::ConstValue) -> String {
     }
 }
 
+/// The checker's type for the same expression written in a function body (oracle side of the type agreement).
+fn body_type(e: &E) -> String {
+    let source = format!("{}def body() -> None:\n    v = {}\n", header_consts(), src(e));
+    let toks = match incan_syntax::lexer::lex(&source) { Ok(t) => t, Err(_) => return "lex-error".into() };
+    let ast = match incan_syntax::parser::parse(&toks) { Ok(a) => a, Err(_) => return "parse-error".into() };
+    let mut tc = incan::frontend::typechecker::TypeChecker::new();
+    if tc.check_program(&ast).is_err() {
+        return "rejected".into();
+    }
+    let info = tc.type_info();
+    for d in &ast.declarations {
+        if let incan_syntax::ast::Declaration::Function(f) = &d.node {
+            if let Some(st) = f.body.first() {
+                if let incan_syntax::ast::Statement::Assignment(a) = &st.node {
+                    return info.expr_type(a.value.span).map(|t| t.to_string().replace(' ', "")).unwrap_or_else(|| "?".into());
+                }
+            }
+        }
+    }
+    "?".into()
+}
+
 /// A: the real checker on `const K = E` (no annotation), after the base consts.
 fn check_const(e: &E) -> String {
     let source = format!("{}const K = {}\n\ndef main() -> None:\n    pass\n", header_consts(), src(e));
@@ -288,7 +310,7 @@ fn check_const(e: &E) -> String {
                     _ => None,
                 }).unwrap_or_else(|| "?".to_string());
                 let val = info.const_value("K").map(show_cv).unwrap_or_else(|| "none".to_string());
-                format!("ok {} {val}", ty.replace(' ', ""))
+                format!("ok {} {val} body={}", ty.replace(' ', ""), body_type(e))
             }
         }
     });
